@@ -22,6 +22,8 @@ type TokenBucket struct {
 	BurstBytes uint32
 	Priority   uint8
 	_          [3]byte // Padding
+	Frac       uint32  // Accrued fraction of a byte (1e-9 bytes), kept by the eBPF program
+	_          [4]byte // Padding
 }
 
 // QoSStats mirrors the eBPF stats struct
